@@ -29,8 +29,11 @@ mod p16;
 mod p17;
 mod p18;
 mod p19;
+mod p20;
 mod p21;
 mod p22;
+mod p23;
+mod p24;
 mod pkt;
 mod refval;
 
@@ -56,7 +59,10 @@ fn make(id: &str, tier: Tier) -> Option<Box<dyn Property>> {
         "C17" => Box::new(p17::P17::new(tier)),
         "C18" => Box::new(p18::P18::new(tier)),
         "C19" => Box::new(p19::P19::new(tier)),
+        "C20" => Box::new(p20::P20::new(tier)),
         "C21" => Box::new(p21::P21::new(tier)),
+        "C24" => Box::new(p24::P24::new(tier)),
+        "C23" => Box::new(p23::P23::new(tier)),
         "C22" => Box::new(p22::P22::new(tier)),
         "C09" => Box::new(p09::P09::new(tier)),
         _ => return None,
